@@ -101,6 +101,8 @@ pub mod policy;
 pub mod serializers;
 pub mod types;
 mod value;
+#[cfg(feature = "verif-hooks")]
+pub mod verif_hooks;
 
 pub use bit_encoding::decode;
 pub use bit_encoding::encode;
